@@ -26,6 +26,34 @@ def rand_attrs(rng):
 
 
 def observe_program(P, givens, seed):
+    """A fifth of the programs are built and called with the library's logger switched on (as with TAWAZI_LOGGER_LEVEL=DEBUG)
+    into a sink that drops everything: every message is formatted, and logging must not change what a call returns."""
+    if random.Random(seed ^ 0x5BD1E995).random() >= 0.2:
+        return _observe_program(P, givens, seed)
+    return with_logger(lambda: [dict(r, logging=True) for r in _observe_program(P, givens, seed)])
+
+
+def with_logger(fn):
+    import prog_run  # noqa: F401  (puts the library under test on the path)
+    import tawazi  # noqa: F401  (importing the library switches its logger off: import first, enable afterwards)
+    from loguru import logger as _lg
+    try:
+        _lg.remove()
+    except ValueError:
+        pass
+    sink = _lg.add(lambda m: None, level="DEBUG")
+    _lg.enable("tawazi")
+    try:
+        return fn()
+    finally:
+        _lg.disable("tawazi")
+        try:
+            _lg.remove(sink)
+        except ValueError:
+            pass
+
+
+def _observe_program(P, givens, seed):
     """Build P once under a random configuration and call the SAME object with every argument tuple in turn
     (a later call must not see anything of an earlier one except setup results); returns observation rows."""
     import prog_gen as pg
@@ -160,6 +188,13 @@ def plan(tier, seed):
         if rng.random() < 0.03:
             givens.append(list(givens[0]) + [1] * (len(P["params"]) - len(givens[0]) + 1))       # one argument too many
         jobs.append((i, P, givens, rng.randrange(1 << 30)))
+    # containers that tell a list key from a tuple key (numpy / pandas style): usages with list, tuple and int keys.  A
+    # generator of its own, so that the families above stay what they were
+    rg = random.Random(seed + 977)
+    for _ in range(120 if tier == "quick" else 1200):
+        P = pg.gen_program(rg, nsites=rg.randint(0, 4), nparams=rg.randint(0, 2), max_depth=rg.choice([1, 2]), focus="grid")
+        progs.append(P)
+        jobs.append((len(progs) - 1, P, [pg.gen_args(P, rg) for _ in range(2)], rg.randrange(1 << 30)))
     return progs, jobs
 
 
@@ -327,6 +362,8 @@ def report(prop, res):
     nontriv = res["counts"].get(NONTRIVIAL[prop], 0)
     if nontriv < 2:
         mach.append(f"vacuous: {nontriv} non-trivial observations for {prop}")
+    if prop == "C02" and res["counts"].get("seqkeys", 0) < 2:
+        mach.append(f'vacuous: {res["counts"].get("seqkeys", 0)} observations with a list / tuple key inside the equivalence')
     cov = {"states": res["states"] + res["model"]["states"], "transitions": res["transitions"] + res["model"]["transitions"],
            "traces_validated_against_impl": res["observations"], "evaluations": res["observations"], "distinct_nontrivial": nontriv,
            "rule": "observations = (generated describing function, argument tuple, random configuration: max_concurrency 1..4, priorities, is_sequential, "
@@ -334,7 +371,7 @@ def report(prop, res):
                    "indexing, unpack_to, operators (also reflected), and_/or_/not_, re-used functions, all return shapes, nested DAGs to depth 3, activation "
                    "flags of every form. Non-trivial: inside the equivalence (the plain body does not raise)"
                    + {"C01": "", "C10": " and the program carries an activation flag", "C20": " and the program calls a nested DAG",
-                      "C17": " and run as AsyncDAG", "C03": "", "C02": " and some value is used through an index path", "C15": "", "C13": " and the program has debug call sites", "C04": " and the program calls a nested DAG (thread identity of every entered node against its resource)"}[prop],
+                      "C17": " and run as AsyncDAG", "C03": "", "C02": " and some value is used through an index path (int, string, list and tuple keys; counts.seqkeys observations use a list / tuple key on a container that tells them apart)", "C15": "", "C13": " and the program has debug call sites", "C04": " and the program calls a nested DAG (thread identity of every entered node against its resource)"}[prop],
            "samples": res["samples"], "exhaustive": False, "programs": res["programs"], "counts": res["counts"],
            "model_run": {k: res["model"][k] for k in ("cases", "states", "transitions", "ok")},
            "violation_counts": {k: n for k, n in res["viol_counts"].items() if k.startswith(prop)},
@@ -360,8 +397,10 @@ def replay(payload, log=common.say):
         if payload.get("clause") == "C04.thread":
             from tawazi import Resource
             attrs = lambda k: {"resource": Resource.main_thread}  # noqa: E731  (every decorated function asks for the main thread)
-        d, flat = pr.build(P, attrs, is_async=row["async"], mc=2)
-        r = pr.run_real(d, flat, payload["given"], row["async"], bool(payload.get("observed", {}).get("dbg")))
+        def again():
+            d, flat = pr.build(P, attrs, is_async=row["async"], mc=2)
+            return pr.run_real(d, flat, payload["given"], row["async"], bool(payload.get("observed", {}).get("dbg")))
+        r = with_logger(again) if payload.get("observed", {}).get("logging") else again()
         row.update({k: r[k] for k in ("raised", "errclass", "val", "exec", "dup")})
         row["wrongthread"] = bool(r.get("wrongthread"))
     except BaseException as e:  # noqa: BLE001
